@@ -743,7 +743,7 @@ def assemble(rng, c):
     elif c.sel[0] == "file":
         flags.append(rng.choice(["-file=" + c.sel[1], ("-file", c.sel[1])]))
     else:
-        flags.append("-type=*")
+        flags.append(rng.choice(["-type=*", "-type=*", "-type=*", ("-type", "*")]))
     if c.sep:
         flags.append(c.sepflag)
     if c.sub == "map" and getattr(c, "path", "../dest") is not None:
